@@ -5,6 +5,8 @@
 set -u
 WT=$1; ID=$2
 cd $WT || exit 2
+# private temp dir: the test helpers put work dirs under $TMPDIR/pearl_test/<secs>/<name>, which collides between worktrees
+export TMPDIR=$WT/tmp; mkdir -p $TMPDIR
 [ -f SEED/patch.diff ] || { echo "no SEED/patch.diff"; exit 2; }
 DEMO=$(ls tests/seed_demo.rs 2>/dev/null)
 echo "== with change: full suite (demo excluded) =="
